@@ -17,7 +17,7 @@ theorem wf_congr {a b : State} (h : WF a)
     (tk : ∀ t, (b.tasks t).hasState = (a.tasks t).hasState ∧ (b.tasks t).scope = (a.tasks t).scope ∧
       (b.tasks t).hscope = (a.tasks t).hscope ∧
       (b.tasks t).group = (a.tasks t).group ∧ (b.tasks t).startFut = (a.tasks t).startFut ∧
-      (b.tasks t).outcome = (a.tasks t).outcome)
+      ((b.tasks t).outcome = (a.tasks t).outcome ∨ ((b.tasks t).st = .done ∧ t < a.nTasks)))
     (tkst : ∀ t, ((a.tasks t).st = .done → (b.tasks t).st = .done) ∧
       ((b.tasks t).st = .created → (a.tasks t).st = .created) ∧
       (a.nTasks ≤ t → (b.tasks t).st = (a.tasks t).st))
@@ -30,10 +30,8 @@ theorem wf_congr {a b : State} (h : WF a)
       (b.scopes s).tasks = (a.scopes s).tasks ∧ (b.scopes s).children = (a.scopes s).children ∧
       (b.scopes s).chain = (a.scopes s).chain)
     (gr : ∀ g, (g < a.nGroups → (b.groups g).scope = (a.groups g).scope) ∧
-      (b.groups g).tasks = (a.groups g).tasks ∧
-      (b.groups g).spawned = (a.groups g).spawned ∧
-      (a.nGroups ≤ g → (b.groups g).entered = (a.groups g).entered ∧
-        (b.groups g).onCompleted = (a.groups g).onCompleted))
+      (∀ t ∈ (b.groups g).tasks, t ∈ (a.groups g).tasks) ∧
+      (∀ t ∈ (b.groups g).spawned, t ∈ (a.groups g).spawned))
     (grs : ∀ g, a.nGroups ≤ g → g < b.nGroups → (b.groups g).scope < b.nScopes) :
     WF b := by
   have ok : ∀ x, HandleOk a x → HandleOk b x :=
@@ -42,15 +40,20 @@ theorem wf_congr {a b : State} (h : WF a)
   · intro t ht
     have := h.task_dflt t (by omega)
     have e := tk t
-    rw [(tkst t).2.2 (by omega), e.1, e.2.1, e.2.2.1, e.2.2.2.1, e.2.2.2.2.1, e.2.2.2.2.2]
+    have eo : (b.tasks t).outcome = (a.tasks t).outcome := by
+      rcases e.2.2.2.2.2 with eo | eo
+      · exact eo
+      · omega
+    rw [(tkst t).2.2 (by omega), e.1, e.2.1, e.2.2.1, e.2.2.2.1, e.2.2.2.2.1, eo]
     exact this
   · exact scx
   · exact scd
   · intro g hg
     have := h.group_dflt g (by omega)
     have e := gr g
-    have e2 := e.2.2.2 (by omega)
-    rw [e.2.1, e.2.2.1, e2.1, e2.2]; exact this
+    rw [this.1] at e; rw [this.2] at e
+    exact ⟨List.eq_nil_iff_forall_not_mem.mpr (fun t ht => by simpa using e.2.1 t ht),
+      List.eq_nil_iff_forall_not_mem.mpr (fun t ht => by simpa using e.2.2 t ht)⟩
   · intro x hx; rcases rd x hx with hx | hx
     · exact ok x (h.ready_ok x hx)
     · exact ok x hx
@@ -69,7 +72,8 @@ theorem wf_congr {a b : State} (h : WF a)
     by_cases hga : g < a.nGroups
     · rw [(gr g).1 hga]; have := h.group_scope_lt g hga; omega
     · exact grs g (by omega) hg
-  · intro g t; rw [(gr g).2.1, (gr g).2.2.1, nT]; exact h.group_tasks_lt g t
+  · intro g t ht; rw [nT]
+    exact h.group_tasks_lt g t (ht.imp ((gr g).2.1 t) ((gr g).2.2 t))
   · intro t g; rw [(tk t).2.2.2.1]; intro hg; have := h.task_group_lt t g hg; omega
   · intro s; have e := sc s
     rw [e.2.2.1, e.2.1, e.2.2.2.1, e.2.2.2.2.1, e.2.2.2.2.2.1, e.1,
@@ -103,6 +107,10 @@ theorem wf_congr {a b : State} (h : WF a)
   · intro s t; rw [(sc s).2.2.2.1]
     intro hh hc; exact h.host_started s t hh ((tkst t).2.1 hc)
   · exact run
+  · intro t ho
+    rcases (tk t).2.2.2.2.2 with eo | eo
+    · rw [eo] at ho; exact (tkst t).1 (h.outcome_done t ho)
+    · exact eo.1
 
 /-! ### instances -/
 
@@ -129,7 +137,7 @@ theorem wf_setTask_inert {st : State} (h : WF st) (t : Nat) (f : Task → Task)
     · subst hu; simpa using hf'
     · simp [hu]
   apply wf_congr h
-  case tk => exact fun u => (e u).2
+  case tk => exact fun u => ⟨(e u).2.1, (e u).2.2.1, (e u).2.2.2.1, (e u).2.2.2.2.1, (e u).2.2.2.2.2.1, .inl (e u).2.2.2.2.2.2⟩
   case tkst => intro u; rw [(e u).1]; simp
   case run => intro u; rw [(e u).1]; exact h.running_spec u
   case scx => exact h.scope_exists
@@ -137,9 +145,10 @@ theorem wf_setTask_inert {st : State} (h : WF st) (t : Nat) (f : Task → Task)
   case grs => intro g h1 h2; exact absurd h2 (by simp; exact h1)
   all_goals first | (exact fun _ h => Or.inl h) | (exact fun _ _ h => Or.inl h) | simp
 
-theorem wf_setGroup_inert {st : State} (h : WF st) {g : Nat} (hg : g < st.nGroups)
+theorem wf_setGroup_inert {st : State} (h : WF st) (g : Nat)
     (f : Group → Group)
-    (hf : ∀ x, (f x).scope = x.scope ∧ (f x).tasks = x.tasks ∧ (f x).spawned = x.spawned) :
+    (hf : ∀ x, (f x).scope = x.scope ∧ (∀ t ∈ (f x).tasks, t ∈ x.tasks) ∧
+      (∀ t ∈ (f x).spawned, t ∈ x.spawned)) :
     WF (st.setGroup g f) := by
   have hf' := hf (st.groups g)
   apply wf_congr h
@@ -152,7 +161,7 @@ theorem wf_setGroup_inert {st : State} (h : WF st) {g : Nat} (hg : g < st.nGroup
   case gr =>
     intro g'
     by_cases hgg : g' = g
-    · subst hgg; simp [hf']; omega
+    · subst hgg; simpa using ⟨fun _ => hf'.1, hf'.2⟩
     · simp [hgg]
   all_goals first | (exact fun _ h => Or.inl h) | (exact fun _ _ h => Or.inl h) | simp
 
